@@ -131,7 +131,7 @@ def check_case(ctx, case):
                     return
                 j += 1
             ctx.count("rows_checked")
-            if hits != 1:
+            if hits != 1 and not (case.get("time_step") and hits >= 1):    # a time-triggered row may fall on a multiple by chance
                 bad("missing-row" if hits == 0 else "duplicate-row",
                     f"{hits} rows at multiple {k} of the step ({want!r} ft); range {r_ft!r} ft, last row at {xs[-1]!r} ft, "
                     f"final integration point at {pts[-1][1]!r} ft", multiple=k)
